@@ -66,11 +66,12 @@ func handleJcc(params x86genParams, ctx *CodeGenContext) ([]byte, error) {
 			return nil, fmt.Errorf("invalid segment format in JMP_FAR operand: '%s'", segmentPart)
 		}
 
-		segment, err := strconv.ParseInt(segmentStr, 10, 16) // セグメントは16ビット
+		// セグメントは16ビット、オフセットは32ビットのビットパターン (0xF000 や 0x80000000 以上も有効)
+		segment, err := strconv.ParseUint(segmentStr, 10, 16)
 		if err != nil {
 			return nil, fmt.Errorf("invalid segment value '%s' for JMP_FAR: %v", segmentStr, err)
 		}
-		offset, err := strconv.ParseInt(offsetStr, 10, 32) // オフセットは32ビット
+		offset, err := strconv.ParseUint(offsetStr, 10, 32)
 		if err != nil {
 			return nil, fmt.Errorf("invalid offset value '%s' for JMP_FAR: %v", offsetStr, err)
 		}
